@@ -557,8 +557,8 @@ func x01Cases(seed int64, thorough bool) []*x01Case {
 		Plan: []string{"f", "f", "m"}, PauseAt: 6, PauseMs: 350})
 	add(x01Case{Label: "pause-while-probing", Upload: true, Binary: true, Compress: 2, Protocol: 3, Bufsize: 10 * M, Sizes: []int64{1 * M}, Kind: 1,
 		PauseAt: 2, PauseMs: 250})
-	add(x01Case{Label: "pause-then-slow", Upload: true, Binary: false, Compress: 2, Bufsize: 64 * K, Sizes: []int64{1 * M}, Kind: 1,
-		Plan: []string{"m"}, Default: "s2", PauseAt: 4, PauseMs: 200})
+	add(x01Case{Label: "pause-then-slow", Upload: true, Binary: false, Compress: 2, Bufsize: 64 * K, Sizes: []int64{300 * K}, Kind: 1,
+		Plan: []string{"m", "f", "f", "f", "f", "s2", "s2", "s2", "s2", "s2", "s2", "s2", "s2", "s2", "s2", "f", "f", "s2"}, Default: "m", PauseAt: 4, PauseMs: 200})
 	// protocol 1 (real clock: sendFileData reads time.Now itself)
 	add(x01Case{Label: "p1-bin-4K", Upload: true, Binary: true, Compress: 2, Protocol: 1, Bufsize: 4 * K, Sizes: []int64{40 * K, 0, 3000}, Kind: 2, Default: "r"})
 	add(x01Case{Label: "p1-b64-1M", Upload: true, Binary: false, Compress: 2, Protocol: 1, Bufsize: 1 * M, Sizes: []int64{300 * K}, Kind: 1, Default: "r"})
@@ -575,9 +575,9 @@ func x01Cases(seed int64, thorough bool) []*x01Case {
 	rng := newX01Rng(seed)
 	bufs := []int64{1 * K, 2 * K, 4 * K, 10 * K, 10*K + 1, 16 * K, 100 * K, 1 * M, 10 * M, 1024 * M, 3000, 77777}
 	classes := []string{"f", "f", "f", "f", "m", "m", "s2", "s3", "s7", "s20", "s2"}
-	nrand := 24
+	nrand, scale := 24, 40
 	if thorough {
-		nrand = 400
+		nrand, scale = 400, 160
 	}
 	for i := 0; i < nrand; i++ {
 		c := x01Case{Label: fmt.Sprintf("seeded-%d", i), Upload: rng.Intn(2) == 0, Binary: rng.Intn(3) != 0, Escape: rng.Intn(3) == 0,
@@ -586,15 +586,24 @@ func x01Cases(seed int64, thorough bool) []*x01Case {
 			c.Compress = rng.Intn(2)
 			c.Kind = 0
 		}
-		nf := 1 + rng.Intn(2)
-		for j := 0; j < nf; j++ {
-			c.Sizes = append(c.Sizes, int64(rng.Intn(1500*1024)))
-		}
 		np := rng.Intn(30)
 		for j := 0; j < np; j++ {
 			c.Plan = append(c.Plan, classes[rng.Intn(len(classes))])
 		}
 		c.Default = []string{"f", "f", "m"}[rng.Intn(3)]
+		// the number of DATA messages (and recorded events) grows with size / buffer size; a size
+		// that was shrunk stays small when the later acknowledgements are not fast
+		unit := c.Bufsize
+		if unit > 64*K {
+			unit = 64 * K
+		}
+		if unit < 4*K || c.Default != "f" {
+			unit = 4 * K
+		}
+		nf := 1 + rng.Intn(2)
+		for j := 0; j < nf; j++ {
+			c.Sizes = append(c.Sizes, int64(rng.Intn(scale))*unit/int64(nf)+int64(rng.Intn(5000)))
+		}
 		if c.Upload && c.Protocol >= 3 && rng.Intn(4) == 0 {
 			c.PauseAt = rng.Intn(12)
 			c.PauseMs = 150 + rng.Intn(300)
